@@ -18,11 +18,11 @@ CHECKS = {
         technique=DST + "peer abort/close at arbitrary byte offsets, back-pressure, quiescence-based liveness oracle",
         ref="DESIGN.md §4 C10"),
     "C14": dict(
-        text="Seeded histories over {serve round (Listen | Bind+DoListen), client connect/call/close/abort, handler failure, context cancel, Shutdown, second Bind/Listen, re-serve on the same address}; Shutdown placed by observed accept-loop phase plus statement-level preemption inside Shutdown, the loop and teardown. Oracles: every round ends once Shutdown was issued and clients are gone; nil return when Shutdown found the loop blocked in Accept; nothing dialled after Shutdown returned is accepted by that round; no return before accepted connections ended; listener closed at return; re-bind succeeds; second bind while serving refused. Variants: serving contexts that are cancelled or expire (standard and simulator contexts), Bind given a context of its own, rounds that never get as far as serving (address held by a foreign listener; Bind + Shutdown without a serving call), handlers that call Shutdown themselves; a run that spins without progress is a livelock.",
+        text="Seeded histories over {serve round (Listen | Bind+DoListen), client connect/call/close/abort, handler failure, context cancel, Shutdown, second Bind/Listen, re-serve on the same address}; Shutdown placed by observed accept-loop phase plus statement-level preemption inside Shutdown, the loop and teardown. Oracles: every round ends once Shutdown was issued and clients are gone; nil return when Shutdown found the loop blocked in Accept; nothing dialled after Shutdown returned is accepted by that round; no return before accepted connections ended; listener closed at return; re-bind succeeds; second bind while serving refused. Variants: serving contexts that are cancelled or expire (standard and simulator contexts), Bind given a context of its own, rounds that never get as far as serving (address held by a foreign listener; Bind + Shutdown without a serving call), handlers that call Shutdown themselves; DoListen without a Bind (refused, the next round works); one scenario in eight also meets accept(2) failing with EMFILE / ENFILE / ECONNABORTED at once or after having been blocked (the serving call may hand the error on - drained, endpoint released, service reusable - or go on serving; it must not return nil as if shut down); a run that spins without progress is a livelock.",
         technique=DST + "seeded scheduler preempting between statements of the accept loop / Shutdown / teardown, life-cycle history oracle with bounded liveness at quiescence",
         ref="DESIGN.md §4 C14"),
     "C15": dict(
-        text="Same histories with idle timeouts from 1 us to 24 h on the simulated clock (and timeout 0 as control). Oracles are exact because running code takes no simulated time: timeout return not before last-new-connection + timeout, not after last-connection-end + timeout, never while an obliged client still has to be served, always eventually when idle; never a self-stop without timeout; listener closed at the timeout return, later dials refused, re-serve works. One run in 24: the serving context ends under open connections and the idle timeout then stops the service. A second leg, NOT simulated, serves with an idle timeout on the real listener types (unix, abstract unix, tcp): whether the accept deadline works there at all has no seam.",
+        text="Same histories with idle timeouts from 1 us to 24 h on the simulated clock (and timeout 0 as control). Oracles are exact because running code takes no simulated time: timeout return not before last-new-connection + timeout, not after last-connection-end + timeout, never while an obliged client still has to be served, always eventually when idle; never a self-stop without timeout; listener closed at the timeout return, later dials refused, re-serve works. One run in 24: the serving context ends under open connections and the idle timeout then stops the service. One scenario in eight: Accept fails with a temporary error that is not a timeout (EMFILE, ENFILE, ECONNABORTED) - never a reason to report an idle timeout that has not elapsed. A second leg, NOT simulated, serves with an idle timeout on the real listener types (unix, abstract unix, tcp): whether the accept deadline works there at all has no seam.",
         technique=DST + "simulated clock with accept-deadline expiries as kernel events, ties decided by the seeded scheduler, exact timing oracle; plus a real-listener leg (not simulated) with ordering-based and very wide wall-clock oracles",
         ref="DESIGN.md §4 C15"),
     "C16": dict(
@@ -36,16 +36,16 @@ CHECKS = {
         note="Trusted: the simulator's transport model, testing/synctest. The real-transport leg trusts wall-clock bounds that are three orders of magnitude wider than the expected latency (5 s late, 20 s stuck) and re-executes a violating history twice before reporting it.",
         ref="DESIGN.md §4 C17"),
     "C18": dict(
-        text="A peer writes NUL-terminated frames followed by raw payload, cut so that payload shares a segment with the preceding frame; the consumer mixes ReadBytes(0) and Read of 1..8192 bytes in generated order, client side through Upgrade's object and service side through Call.Conn. Oracle: concatenation of everything returned = the exact prefix of the stream; a satisfiable read never stays blocked at quiescence; when the peer closed in an orderly way and the consumer read to the end, what was returned (including bytes returned together with EOF) is the whole stream. Upgrade replies with either continues flag, oneway upgrade calls, Upgrade under a context that ends right after it.",
+        text="A peer writes NUL-terminated frames followed by raw payload, cut so that payload shares a segment with the preceding frame; the consumer mixes ReadBytes(0) and Read of 1..8192 bytes in generated order, client side through Upgrade's object and service side through Call.Conn. Oracle: concatenation of everything returned = the exact prefix of the stream; a satisfiable read never stays blocked at quiescence; when the peer closed in an orderly way and the consumer read to the end, what was returned (including bytes returned together with EOF) is the whole stream. Upgrade replies with either continues flag, oneway upgrade calls, Upgrade under a context that ends right after it. The end of the stream is reported only when the peer has ended it; a peer that writes everything and closes at once while the consumer writes into the closed connection (the failed write costs nothing that was received); one run in 3000 streams 17-24 MiB behind the upgrade.",
         technique=DST + "adversarial segmentation / coalescing / short reads of the simulated transport, byte-exact stream oracle",
         ref="DESIGN.md §4 C18"),
     "C19": dict(
-        text="Simulated leg: histories of Bind / Bind+DoListen / Listen / Shutdown on one service object with address strings from a grammar (tcp and abstract unix forms, missing / empty / foreign protocol, empty unix path, ';parameter' tails, random strings) over the simulated socket namespace; oracle: outcome class per string from the statement (refused / bound to exactly (network, address-before-';')), no panic in any task, a refused or failed bind is followed by a working bind, a probe client reaches the service at the parsed endpoint, listeners closed after Shutdown. Filesystem socket paths and the client dialler cannot be put behind the simulator without replacing the lines under test; see level_note.",
+        text="Simulated leg: histories of Bind / Bind+DoListen / Listen / Shutdown on one service object with address strings from a grammar (tcp and abstract unix forms, missing / empty / foreign protocol, empty unix path, ';parameter' tails, random strings) over the simulated socket namespace; oracle: outcome class per string from the statement (refused / bound to exactly (network, address-before-';')), no panic in any task, a refused or failed bind is followed by a working bind, a probe client reaches the service at the parsed endpoint, listeners closed after Shutdown. Filesystem socket paths and the client dialler cannot be put behind the simulator without replacing the lines under test: a second leg, NOT simulated, runs seeded address histories against the real kernel (filesystem paths with stale sockets / files / directories / missing parents / foreign listeners at the path, abstract names, tcp with IPv4 and IPv6-literal hosts, the real dialler given the same string, a dial under a context that never ends when nobody listens, socket-file life cycle).",
         technique=DST + "seeded address-string histories over the simulated socket namespace, outcome-class model",
-        note="Trusted: simulated namespace (EADDRINUSE / ECONNREFUSED / unknown-network behaviour of net.Listen), testing/synctest. Not covered by this leg: os.Remove of stale sockets, SetUnlinkOnClose, the *net.UnixListener assertion and NewConnection's net.Dialer (real-kernel objects without a seam).",
+        note="Trusted: simulated namespace (EADDRINUSE / ECONNREFUSED / unknown-network behaviour of net.Listen), testing/synctest. Not covered by the simulated leg: os.Remove of stale sockets, SetUnlinkOnClose, the *net.UnixListener assertion and NewConnection's net.Dialer (real-kernel objects without a seam) - those are exercised by the real-kernel leg, which controls no schedule (20 s watchdogs; ordering facts only).",
         ref="DESIGN.md §4 C19"),
     "C02": dict(
-        text="Real Connection clients and a real Service exchange generated JSON (strings with NUL, quotes, control and non-BMP characters, nesting to depth 200, frames larger than bufio's buffer and the pipe capacity; up to MiB in the thorough tier) over the simulated stream and over the real PipeCon on simulated stdio pipes, under per-run segmentation / coalescing / short-read / latency / tiny-capacity policies. Oracle: both wire taps cut at NUL are non-empty JSON objects, the stream ends with NUL, message counts equal the model's, and what each side decodes equals what the other sent whatever the segmentation (C01/C10 add raw byte-at-a-time client streams against the same model). Variants: Shutdown in the middle of the traffic, a service with an idle timeout whose accept deadline expires while connections are open, and (one run in 1500) a bulk scenario of 20-60 MiB per direction on one connection.",
+        text="Real Connection clients and a real Service exchange generated JSON (strings with NUL, quotes, control and non-BMP characters, nesting to depth 200, frames larger than bufio's buffer and the pipe capacity; up to MiB in the thorough tier) over the simulated stream and over the real PipeCon on simulated stdio pipes, under per-run segmentation / coalescing / short-read / latency / tiny-capacity policies. Oracle: both wire taps cut at NUL are non-empty JSON objects, the stream ends with NUL, message counts equal the model's, and what each side decodes equals what the other sent whatever the segmentation (C01/C10 add raw byte-at-a-time client streams against the same model). Variants: Shutdown in the middle of the traffic, a service with an idle timeout whose accept deadline expires while connections are open, (one run in 1500) a bulk scenario of 20-60 MiB per direction on one connection, and a client that closes its connection twice before the other clients dial (nothing a closed connection gave back is shared by later ones).",
         technique=DST + "wire tap of the simulated transport + adversarial segmentation, framing oracle on both directions",
         ref="DESIGN.md §4 C02"),
     "C03": dict(
@@ -57,7 +57,7 @@ CHECKS = {
         technique=DST + "both real endpoints over the simulated transport, error-namespace reference predicate",
         ref="DESIGN.md §4 C12"),
     "C11": dict(
-        text="A real Connection (simulated stream, and PipeCon over simulated stdio pipes) against a scripted raw server that sends a generated reply byte stream - valid single / more-sequence / error frames for the four standard and foreign names with fitting, missing, null and unfitting parameters, bare null, wrong shapes, truncated and random bytes, byte-level mutations, frames beyond bufio's buffer - in arbitrary pieces and dies (close / reset / silence) at a drawn byte offset; client operations Send with all 16 flag sets, receive repeatedly, Call, Upgrade. Oracle: a reference decoder over the bytes actually sent: next complete frame -> (parameters, continues) | remote error of that name | decode error; never success without a complete frame; unexpected-EOF after an orderly close; refused flag sets write nothing, accepted requests carry exactly the requested flags; no panic.",
+        text="A real Connection (simulated stream, and PipeCon over simulated stdio pipes) against a scripted raw server that sends a generated reply byte stream - valid single / more-sequence / error frames for the four standard and foreign names with fitting, missing, null and unfitting parameters, bare null, wrong shapes, truncated and random bytes, byte-level mutations, frames beyond bufio's buffer - in arbitrary pieces and dies (close / reset / silence) at a drawn byte offset; client operations Send with all 16 flag sets, receive repeatedly, Call, Upgrade. Oracle: a reference decoder over the bytes actually sent: next complete frame -> (parameters, continues) | remote error of that name | decode error; never success without a complete frame; unexpected-EOF after an orderly close; refused flag sets write nothing, accepted requests carry exactly the requested flags; a Send first attempted under an expired deadline fails and leaves nothing on the wire; no panic.",
         technique=DST + "scripted hostile peer with abort at arbitrary byte offsets, reference decoder oracle over the delivered bytes",
         ref="DESIGN.md §4 C11"),
     "C13": dict(
